@@ -109,6 +109,7 @@ def check_case(case):
     creation = {nm: a.dtype for nm, a in shadow.items()}
     failed_before = False
     nontrivial = False
+    operands_kept = []
 
     def invariants(step, op):
         for nm in CO.variables(obj):
@@ -212,8 +213,23 @@ def check_case(case):
         except Reject as r:
             verdict = 'reject' if r.reason == 'fit' else 'reject-value'
 
-        out = CO.apply_op(obj, op, labels)
+        out = CO.apply_op(obj, op, labels, keep=operands_kept)
         oc = opclass(op)
+        if out.ok and operands_kept:
+            # scribble over the arrays that were handed in: the container must hold its own data
+            snap_mid = {nm: np.array(obj.__dict__['_' + nm]) for nm in CO.variables(obj)}
+            for arr in operands_kept:
+                if isinstance(arr, np.ndarray) and arr.size and arr.dtype.kind in 'fiub':
+                    try:
+                        arr[...] = arr.dtype.type(77)
+                    except Exception:  # noqa: BLE001
+                        pass
+            for nm, was in snap_mid.items():
+                if not same_array(obj.__dict__['_' + nm], was):
+                    res.fail(f'operand-still-attached/op={k}/operand={oc}', f'{kind} span {labels!r}: after {op} the series {nm} follows '
+                             f'later changes of the array that was passed in')
+                    break
+        del operands_kept[:]
         detail = f'{kind} span {labels!r} strict={strict_now}: step {step} {op} (history {case["ops"][:step]})'
         if oc in ('nested', 'np-rank2', 'np-rank0'):
             nontrivial = True
